@@ -363,6 +363,111 @@ fn collect_syntactic<'a>(cx: &'a ExecCx, obj: &str, ss: &'a SelSet, out: &mut Ve
     }
 }
 
+
+/// does the selection set (fragments followed) contain a selection with a variable-driven @skip / @include?
+fn has_variable_conditional(cx: &ExecCx, ss: &SelSet, depth: usize) -> bool {
+    if depth > 12 {
+        return false;
+    }
+    ss.items.iter().any(|s| {
+        let dirs = match s {
+            Sel::Field(f) => &f.dirs,
+            Sel::Inline { dirs, .. } => dirs,
+            Sel::Spread { dirs, .. } => dirs,
+        };
+        if dirs.iter().any(|d| matches!(d.name.s.as_str(), "skip" | "include") && matches!(d.arg("if"), Some(Val::Var(_)))) {
+            return true;
+        }
+        match s {
+            Sel::Field(f) => f.sels.as_ref().is_some_and(|x| has_variable_conditional(cx, x, depth + 1)),
+            Sel::Inline { sels, .. } => has_variable_conditional(cx, sels, depth + 1),
+            Sel::Spread { name, .. } => cx.doc.frag(&name.s).is_some_and(|f| has_variable_conditional(cx, &f.sels, depth + 1)),
+        }
+    })
+}
+
+/// occurrences of every response key for object type `obj`: in syntactic order, or (`fields_first`) in the order of a
+/// printer that takes the directly written fields of a selection set before its fragments, at every level
+fn collect_occurrences<'a>(cx: &'a ExecCx, obj: &str, ss: &'a SelSet, fields_first: bool, out: &mut Vec<(String, Vec<&'a Field>)>, depth: usize) {
+    if depth > 12 {
+        return;
+    }
+    let passes: &[u8] = if fields_first { &[1, 2] } else { &[0] };
+    for pass in passes {
+        for s in &ss.items {
+            match s {
+                Sel::Field(f) => {
+                    if *pass == 2 {
+                        continue;
+                    }
+                    let key = f.key().to_string();
+                    match out.iter_mut().find(|(k, _)| *k == key) {
+                        Some((_, v)) => v.push(f),
+                        None => out.push((key, vec![f])),
+                    }
+                }
+                Sel::Inline { cond, sels, .. } => {
+                    if *pass != 1 && cond.as_ref().is_none_or(|c| cx.ix.possible(&c.s).iter().any(|p| p == obj)) {
+                        collect_occurrences(cx, obj, sels, fields_first, out, depth + 1);
+                    }
+                }
+                Sel::Spread { name, .. } => {
+                    if *pass != 1 {
+                        if let Some(f) = cx.doc.frag(&name.s) {
+                            if cx.ix.possible(&f.cond.s).iter().any(|p| p == obj) {
+                                collect_occurrences(cx, obj, &f.sels, fields_first, out, depth + 1);
+                            }
+                        }
+                    }
+                }
+            }
+        }
+    }
+}
+
+/// The listed merge finding, precisely: `merge_selection_trees` keeps the variable branches of the occurrence it
+/// merges *into* and drops those of the occurrence it merges *from*. Observed on the pinned tree: `me { name @include(if:$w) }
+/// me { id }` is right, `me { id } me { name @include(if:$w) }` and two conditional occurrences are wrong. So a duplicated
+/// object-typed response key is hazardous iff an occurrence with a variable conditional inside its sub-selection is not
+/// the first one -- in syntactic order or in the printer's "directly written fields first" order (either may be the
+/// merge order; an occurrence that is first in both is certainly merged into).
+fn merge_hazard(cx: &ExecCx, ss: &SelSet, parent: &str, depth: usize) -> bool {
+    if depth > 10 {
+        return false;
+    }
+    for obj in cx.ix.possible(parent) {
+        let mut occ = vec![];
+        collect_occurrences(cx, &obj, ss, false, &mut occ, 0);
+        let mut occ_ff = vec![];
+        collect_occurrences(cx, &obj, ss, true, &mut occ_ff, 0);
+        for (key, nodes) in &occ {
+            let f0 = nodes[0];
+            let Some(fd) = cx.ix.field(&obj, &f0.name.s) else { continue };
+            if nodes.len() > 1 {
+                let first_ff: Option<&Field> = occ_ff.iter().find(|(k, _)| k == key).map(|(_, v)| v[0]);
+                for (i, f) in nodes.iter().enumerate() {
+                    let cond_inside = f.sels.as_ref().is_some_and(|x| has_variable_conditional(cx, x, 0));
+                    let first_in_both = i == 0 && first_ff.is_some_and(|g| std::ptr::eq(g, *f));
+                    if cond_inside && !first_in_both {
+                        return true;
+                    }
+                }
+            }
+            // below: the sub-selections of all occurrences are merged into one selection set
+            let mut merged = SelSet { p: P::none(), items: vec![] };
+            for f in nodes {
+                if let Some(sub) = &f.sels {
+                    merged.items.extend(sub.items.iter().cloned());
+                }
+            }
+            if !merged.items.is_empty() && merge_hazard(cx, &merged, fd.ty.base(), depth + 1) {
+                return true;
+            }
+        }
+    }
+    false
+}
+
 /// is some response key selected more than once for some possible object type, once fragments are expanded?
 fn expanded_duplicates(cx: &ExecCx, ss: &SelSet, parent: &str, depth: usize) -> bool {
     if depth > 10 {
@@ -438,11 +543,11 @@ pub fn check_results(prop: &str, c: &Case, rng: &mut Rng, stats: &mut TypeStats)
                 _ => continue,
             };
             features(&cx, ss, &mut all, &parent, &mut vec![]);
-            if expanded_duplicates(&cx, ss, &parent, 0) {
-                all.insert("duplicate-response-key");
+            if merge_hazard(&cx, ss, &parent, 0) {
+                all.insert("merge-hazard");
             }
         }
-        all.contains("duplicate-response-key") && all.contains("conditional-variable")
+        all.contains("merge-hazard")
     };
     for d in &ld.doc.defs {
         let Some(cname) = const_name_of(d) else { continue };
